@@ -192,6 +192,8 @@ class CaseTag(Tag):
         stream.expect_tag("endcase")
         end_block_tag = stream.current()
         assert isinstance(end_block_tag, TagToken)
+        # With no `when` or `else` there was no block to record this for us.
+        stream.trim_carry = end_block_tag.wc[-1]
 
         return self.node_class(
             token,
